@@ -4,7 +4,7 @@
    that no two different classes share a name: finding C03-K25 otherwise). *)
 From Coq Require String. Import String.StringSyntax.
 From Coq Require Import List Bool.
-From Statham.Model Require Import Str Json Elem Sub Validate Equality Tables Parser Plain SerJson SerFrag.
+From Statham.Model Require Import Str Json Elem Sub Validate Equality Tables Parser Plain SerJson SerFrag EqFrag.
 Import ListNotations.
 Local Open Scope string_scope.
 
@@ -66,3 +66,11 @@ Definition defs_okb (dfs : list (str * json)) (fuel : nat) (e : elem) : bool :=
 (* the definitions serialize_json writes for the classes it collected (no caller definitions) *)
 Definition class_defs (classes : list elem) : list (str * json) :=
   dict_of_pairs (map (fun c => (match c with EObj n _ _ => n | _ => [] end, ser_top true true [] c)) classes).
+
+(* the premise of C17's congruence for trees with classes: the fragment of C03_inplace_meaning, literals
+   well-formed, dict-valued keywords with unique keys, no float multipleOf (finding K17) *)
+Fixpoint goodcb (fuel : nat) (e : elem) : bool :=
+  match fuel with
+  | O => false
+  | S n => local_cb e && local_wfb e && mok_localb e && forallb (goodcb n) (children e)
+  end.
